@@ -787,7 +787,10 @@ class Cache(object):
         db_tx.txid = txid
         t = self._parse_db_transaction(db_tx)
         if t.block_height:
-            t.confirmations = (self.blockcount() - t.block_height) + 1
+            # Use the latest block count seen, also when it is too old to be served as the current block count
+            blockcount = self.blockcount(never_expires=True)
+            if blockcount:
+                t.confirmations = (blockcount - t.block_height) + 1
         return t
 
     def getaddress(self, address):
@@ -846,7 +849,9 @@ class Cache(object):
                 t = self._parse_db_transaction(db_tx)
                 if t:
                     if t.block_height:
-                        t.confirmations = (self.blockcount() - t.block_height) + 1
+                        blockcount = self.blockcount(never_expires=True)
+                        if blockcount:
+                            t.confirmations = (blockcount - t.block_height) + 1
                     txs.append(t)
                     if len(txs) >= limit:
                         break
